@@ -1,7 +1,7 @@
 """C19 allocation failure: ownership on every exit, checked allocations, reported failures."""
 from ksirules.flow import path_lines, status_var
 from ksirules.model import AnalysisBroken
-from ksirules.ownership import absorbed_param_release, borrowed_into_owning_field, analyse, dangling_fields, is_release, unchecked_allocations
+from ksirules.ownership import absorbed_param_release, borrowed_into_owning_field, uninitialised_at_destructor, analyse, dangling_fields, is_release, unchecked_allocations
 from ksirules.status import dropped_errors
 
 TITLE = "a failed allocation yields an error, never a crash, leak or corruption"
@@ -110,6 +110,25 @@ def run(prog, chk):
     absorbed_obligations(prog, chk, "C19.absorbed")
     chk.rule("C19.borrow", "no borrowed object is stored into an owning field without taking a reference", floor=150)
     borrow_obligations(prog, chk, "C19.borrow")
+    chk.rule("C19.init", "a freshly allocated object is not handed to its destructor before the fields the destructor reads are set "
+                         "(error exit taken after a failed allocation inside the constructor)", floor=80)
+    nctor = 0
+    for fn in sorted(prog.all_functions(), key=lambda f: (f.unit, f.line)):
+        has_alloc = any(n.get("fn") == "KSI_malloc" for b, i, n in fn.calls())
+        if not has_alloc:
+            continue
+        hits = uninitialised_at_destructor(prog, fn)
+        by = {}
+        for (b, i, v, d, f, w) in hits:
+            by.setdefault((v, d, b, i), []).append((f, w))
+        for (v, d, b, i), fl in by.items():
+            chk.ob("C19.init", "%s:%s" % (fn.name, v), False,
+                   "%s is allocated with indeterminate contents and %s(%s) can run, after a failed allocation further down, before %s is set: the "
+                   "destructor decrements / releases garbage" % (v, d, v, ", ".join(sorted(f for f, w in fl))),
+                   loc=fn.loc(fn.elem_line(b, i)), fn=fn, path=path_lines(fn, fl[0][1]))
+        if not hits:
+            nctor += 1
+            chk.ob("C19.init", fn.name, True, "every field its destructor reads is set before the first step that can fail", loc=fn.loc(), fn=fn)
     chk.rule("C19.store", "template parser store step: list ownership on every outcome of its indirect calls", floor=10)
     store_value_table(prog, chk, "C19.store")
     chk.rule("C19.list", "list growth: capacity, array and length change together or, when the allocation fails, not at all", floor=7)
